@@ -10,7 +10,10 @@ constructor arguments of table `a`, `cmp2`/`eq2` of table `b`, `cmp3`/`eq3` of t
 `a`).  Lines that are not a single call of the Model: `dump`; `rangekeep lo hi` (= `range`; the harness keeps
 the returned slice and re-reads it after every later call); `alltwice` (one `All()` sequence ranged over
 twice), `allnested` (an `All()` loop inside an `All()` loop), `allpull n` (two `iter.Pull2` iterators over
-`All()` advanced alternately, the first abandoned after `n` pairs): each prints two listings.
+`All()` advanced alternately, the first abandoned after `n` pairs): each prints two listings; `allcount` (the
+number of pairs `All()` lists; the harness compares the listing itself with its oracle).  The header words
+`kt=int|str` and `vt=int|struct|slice|any` choose the Go types the harness instantiates `K` and `V` with; every key
+and value stands for an `Int` and is printed as that `Int`, so they do not concern the Model (generic in `K`, `V`).
 With `dump=1` every state-changing call appends
 ` | <dump of the table it changed>`.  `dump` prints the current table: pre-order
 `(key val size L R)` for the BST, `(key val size height L R)` for AVL, `(key val size R|B L R)` for
@@ -156,6 +159,9 @@ def runCase (hdr : List String) (ops : List String) : List String := Id.run do
     if ws == ["alltwice"] || ws == ["allnested"] then
       let l := showKVs (all s.1.root)
       out := out.push s!"ok {l} {l}"
+      continue
+    if ws == ["allcount"] then
+      out := out.push s!"ok {(all s.1.root).length}"
       continue
     if let ["allpull", n] := ws then
       if let some n := parseNat? n then
